@@ -350,3 +350,22 @@ Section Spec.
   Definition message_ok (cfg : config) (w : wrapper) (p : c2s) : bool :=
     (negb (want cfg w p false) || buildable cfg w p false) && (negb (want cfg w p true) || buildable cfg w p true).
 End Spec.
+
+Section Spec2.
+  Variable select : bytes -> N -> N -> bool -> option ipraw.
+  Variable params_ok : N -> N -> option N -> bool.
+  Variable dst_port : bytes -> N -> N -> option N -> bool -> option N.
+  Variable geoip_ok : ipraw -> bool.
+  Variable covert_check : bytes -> option bytes.
+  Variable live : ipraw -> N -> bool.
+
+  (* the table state in which the draft of family v6 is ingested: the IPv6 draft of a dual-stack
+     message comes after the IPv4 one *)
+  Definition state_before (cfg : config) (st : table) (w : wrapper) (p : c2s) (v6 : bool) : table :=
+    if v6 && want cfg w p false
+    then match new_reg select params_ok dst_port geoip_ok cfg w p false with
+         | Ok r4 => fst (ingest covert_check live cfg st r4)
+         | _ => st
+         end
+    else st.
+End Spec2.
